@@ -1,14 +1,14 @@
 SPECIFICATION GSpec
 CONSTANTS
-  PROFILE = "deep"
-  MaxFiles = 2
+  PROFILE = "quick"
+  MaxFiles = 3
   INDEX_OWN_PATH = TRUE
   FIX_INDEX_OWN = FALSE
   FIX_DIRNAME = FALSE
   FIX_LENGTH = FALSE
   SORT = "reverse"
   KnownDeviations = {"index-own-path-not-registered", "dirname-extension-stripped", "declared-length-0"}
-  MOUNT_SET = "all"
-  EMIT_MIN = 1
-INVARIANTS Refines Emit
+  MOUNT_SET = "pub"
+  EMIT_MIN = 3
+INVARIANT Refines
 CHECK_DEADLOCK FALSE
